@@ -112,3 +112,75 @@ def minmax_decode_contract(termination, width, bounded_above):
             H.Or(H.And(terminated, after == stop + m), H.And(stop == limit, after == stop)))
     H.check("C01,C03:value-is-the-bytes-of-the-message",
             H.forall(0, len(v), lambda j: H.byte_at(v, j) == H.byte_at(msg, cur + j)))
+
+
+# ---- encode: the check that the value does not contain its own (correctly aligned) termination sequence
+def _encode_search_variant(pos, raw_value):
+    return H.ite(pos >= 0, len(raw_value) - pos + 1, 0)
+
+
+@while_inductive(MinMaxLengthType.encode_into_pdu, 0, modifies=["pos"], variant=_encode_search_variant)
+def inv_encode_search(pos, raw_value, termination_sequence):
+    """pos is -1 or the first occurrence of the termination sequence at or behind the positions examined so far; no
+    correctly aligned occurrence starts before it (anywhere, if pos is -1)"""
+    m = len(termination_sequence)
+    n = len(raw_value)
+    return H.And(pos >= -1, H.implies(pos >= 0, H.And(pos + m <= n, _hit(raw_value, pos, termination_sequence))),
+                 H.forall(0, H.ite(pos >= 0, pos, n), lambda p: H.Not(H.And(
+                     H.mod(p, m) == 0, p + m <= n, _hit(raw_value, p, termination_sequence)))))
+
+
+@harness(props=["C01", "C02", "C04"], strength="P",
+         family=lambda t, s: [{"termination": x, "bounded_above": b} for x in ("ZERO", "HEX_FF", "END_OF_PDU")
+                              for b in (True, False)],
+         functions=[MinMaxLengthType.encode_into_pdu, EncodeState.emplace_atomic_value, EncodeState.emplace_bytes],
+         covers=["accepted", "rejected"], assumes=["A-bitstruct"], crosscheck=False)
+def minmax_encode_contract(termination, bounded_above):
+    """MIN-MAX-LENGTH-TYPE encoding of a byte field of any length at any cursor: accepted iff the length is within
+    MIN/MAX-LENGTH and the value does not contain its termination byte (END-OF-PDU: iff the object is the last one);
+    the PDU then holds the value followed by the termination byte - unless the value has MAX-LENGTH or ends the PDU -
+    and nothing else changes"""
+    mn = H.int("min_length", 0)
+    mx = H.int("max_length", 0) if bounded_above else None
+    if bounded_above:
+        H.assume(mn <= mx)
+    t = MinMaxLengthType(base_data_type=DataType.A_BYTEFIELD, base_type_encoding=None, is_highlow_byte_order_raw=None,
+                         min_length=mn, max_length=mx, termination=Termination[termination])
+    es, cur, origin = leaf._encode_state(0)
+    last = H.bool("is_end_of_pdu")
+    es.is_end_of_pdu = last
+    v = H.bytes("v")
+    n = len(v)
+    seq = TERMINATORS.get((termination, 1))
+    contains_terminator = False if seq is None else H.exists(0, n, lambda p: H.byte_at(v, p) == seq[0])
+    length_ok = H.And(n >= mn, True if mx is None else n <= mx)
+    extra = 0 if seq is None else H.ite(H.Or(last, False if mx is None else n == mx), 0, 1)
+    old_len = len(es.coded_message)
+    old_msg = W.extend(H.snapshot(es.coded_message), cur + n + 1)
+    old_mask = W.extend(H.snapshot(es.used_mask), cur + n + 1)
+    try:
+        t.encode_into_pdu(v, es)
+    except OdxError:
+        H.cover("rejected")
+        H.check("C04:rejection-has-a-cause",
+                H.Or(H.Not(length_ok), contains_terminator, H.And(termination == "END_OF_PDU", H.Not(last))))
+        return
+    except Exception:
+        H.check("C04:rejections-are-odxtools-errors-never-foreign-exceptions", False)
+        return
+    H.cover("accepted")
+    H.check("C04:rejections-are-odxtools-errors-never-foreign-exceptions", True)
+    H.check("C01,C04:accepted-implies-length-within-min-and-max", length_ok)
+    H.check("C01,C04:accepted-implies-the-value-does-not-contain-its-termination-byte", H.Not(contains_terminator))
+    new, new_mask = es.coded_message, es.used_mask
+    end = cur + n + extra
+    H.check("C02:pdu-length-is-max-of-old-and-end-of-object", len(new) == H.ite(old_len > end, old_len, end))
+    H.check("C02:pdu-holds-the-value-bytes-in-order",
+            H.forall(cur, cur + n, lambda j: H.byte_at(new, j) == H.byte_at(v, j - cur)), independent=True)
+    if seq is not None:
+        H.check("C02:termination-byte-follows-unless-max-length-or-end-of-pdu",
+                H.implies(extra == 1, H.byte_at(new, cur + n) == seq[0]), independent=True)
+    H.check("C02:bytes-outside-the-object-unchanged",
+            H.forall(0, len(new), lambda j: H.implies(H.Or(j < cur, j >= end),
+                                                      H.byte_at(new, j) == H.byte_at(old_msg, j))), independent=True)
+    H.check("C02:cursor-is-behind-the-object", H.And(es.cursor_byte_position == end, es.cursor_bit_position == 0))
